@@ -66,6 +66,10 @@ def c10(res: CheckResult) -> None:
     call_unit(res, "constructors / methods / conditions ending with an exception, then probes on the same object: "
                    "no later call may be mistaken for a re-entrant one",
               [p for p in F.fam_fault(res.tier, rng) if p["tag"].startswith(("fault-method", "fault2-method"))], ic)
+    from icv.checks_call import conc_unit
+    conc_unit(res, "calls in other asyncio tasks (fresh / inherited context, sync main program before the loop) are "
+                   "not re-entrant calls", [p for p in F.fam_conc(res.tier, rng, True) if "main_sync" in p or
+                                            p["tag"] == "conc-parent-suspended"], ic, "async", 6 if res.tier == "quick" else 60)
 
 
 @check("C02")
